@@ -200,14 +200,15 @@ static void enumerate(void) {
     mc_assume("Preemptions only at the listed points; libc, zlib and libzstd calls are atomic steps; memory accesses made inside libc on the library's behalf are reported to the detector as ranges (memcpy/memset/memmove/memcmp/fread/ZSTD output).");
     TR = mmap(NULL, sizeof(sch_trace), PROT_READ | PROT_WRITE, MAP_SHARED | MAP_ANONYMOUS, -1, 0); if (TR == MAP_FAILED) mc_harness_error("mmap");
     const char* only_sched = getenv("C07_SCHED");
-    static const int CODECS[] = { CODEC_NONE, CODEC_SNAPPY, CODEC_ZSTD };
+    static const int CODECS[] = { CODEC_NONE, CODEC_SNAPPY, CODEC_ZSTD, CODEC_GZIP, CODEC_LZ4_RAW };
     int maxbound = 3;
     for (int bound = 0; bound <= maxbound; bound++) {
         char st[64]; snprintf(st, sizeof st, "deviation-bound-%d", bound); mc_stage(st);
-        for (int kind = 0; kind < 2; kind++) for (int mode = 0; mode < 3; mode++) for (int ci = 0; ci < 3; ci++) for (int nti = 0; nti < 6; nti++) for (int bsi = 0; bsi < 2; bsi++) for (int shape = 0; shape < 6; shape++) {
+        for (int kind = 0; kind < 2; kind++) for (int mode = 0; mode < 3; mode++) for (int ci = 0; ci < 5; ci++) for (int nti = 0; nti < 6; nti++) for (int bsi = 0; bsi < 2; bsi++) for (int shape = 0; shape < 6; shape++) {
             static const int NTA[] = { 2, 3, 4, 8, 16, 1 }; int nt = NTA[nti];
             scn_t s = { kind, mode, CODECS[ci], nt, bsi ? 12 : 4, shape, bound };
             if (nt == 1) continue;
+            if (ci >= 3 && (bound > 1 || nt > 3 || bsi == 0 || (shape != 0 && shape != 3) || (kind == 1 && (nt != 2 || shape != 0)))) continue;      /* GZIP and LZ4: whole-page batches, 2-3 threads, two shapes, c <= 1 */
             if (bound == 3 && !(kind == 0 && mode == 0 && nt == 2 && ((shape == 5 && ci == 1 && bsi == 1) || (mc_thorough() && shape == 0 && ci == 0 && bsi == 0)))) continue;     /* three deviations: the two-column large-page file (a failed prefetch is retried in the main region, so a wrong result needs a third switch) */
             if (shape >= 4) {                                                                                   /* large pages: one batch for the whole file, SNAPPY and ZSTD (page loads inside the team), 2-3 threads */
                 if (kind || bsi == 0 || ci == 0 || nt > 3 || mode == 1) continue; if (shape == 4 && bound > 1) continue; if (shape == 5 && (mode != 0 || (bound == 2 && !mc_thorough() && !(nt == 2 && ci == 1)))) continue;
